@@ -18,9 +18,10 @@ def module(decls, helpers, harness_src):
 
 
 class Var:
-    def __init__(self, name, snake, kind, tys, attrs="", ignored=False, field_ignored=()):
+    def __init__(self, name, snake, kind, tys, attrs="", ignored=False, field_ignored=(), field_bare=()):
         self.name, self.snake, self.kind, self.tys = name, snake, kind, tys
         self.attrs, self.ignored, self.field_ignored = attrs, ignored, set(field_ignored)
+        self.field_bare = set(field_bare)    # fields carrying the bare marker `#[<attr>]` (accepted, and without effect)
 
     NAMES = ["a", "b", "c"]
 
@@ -28,6 +29,8 @@ class Var:
         fields = []
         for i, t in enumerate(self.tys):
             pre = "#[%s(ignore)] " % attr_name if (i in self.field_ignored and attr_name) else ""
+            if i in self.field_bare and attr_name:
+                pre = "#[%s] " % attr_name
             fields.append(pre + (("%s: " % self.NAMES[i]) if self.kind == "named" else "") + t)
         a = ("    " + self.attrs + "\n") if self.attrs else ""
         if self.kind == "tuple":
@@ -253,6 +256,14 @@ TRYINTO_SMALL = [
     Var("Z", "z", "tuple", ["W"], attrs="#[try_into(ignore)]", ignored=True),
     Var("Unit", "unit", "unit", []),
     Var("Other", "other", "unit", []),
+]
+
+# a bare `#[try_into]` on a FIELD is accepted and changes nothing: its siblings stay part of the tuple (seed C11-field-level-bare-attr-disables-siblings)
+TRYINTO_BARE_FIELD = [
+    Var("Pair", "pair", "tuple", ["V", "W"], field_bare=(0,)),
+    Var("Small", "small", "tuple", ["V"]),
+    Var("Other", "other", "named", ["V", "W"], field_bare=(1,)),
+    Var("Three", "three", "tuple", ["W", "V", "W"], field_bare=(1,), field_ignored=(2,)),
 ]
 
 # variants whose fields are ALL ignored belong to the `()` group, next to unit and explicitly empty variants
@@ -513,6 +524,7 @@ def shapes(tier):
            try_into_shape("c11_try_into_shared_tuples", TRYINTO_VARIANTS),
            try_into_shape("c11_try_into_small", TRYINTO_SMALL, quick=False),
            try_into_shape("c11_try_into_all_fields_ignored", TRYINTO_ALL_IGNORED),
+           try_into_shape("c11_try_into_bare_field_attr", TRYINTO_BARE_FIELD),
            generic_shape()] + selection_shapes()
     # the whole grid costs ~20 s: quick and thorough run all of it
     return out
